@@ -26,6 +26,9 @@ type multiFetcher struct {
 	//
 	// Used to identify which fetcher to get the rest of the fields from in `GetFields`.
 	currentFetcherIndex int
+
+	// True if the docID returned by the last `NextDoc` call has not been consumed by `GetFields`.
+	hasPendingDoc bool
 }
 
 var _ fetcher = (*multiFetcher)(nil)
@@ -55,6 +58,13 @@ type fetcherDocID struct {
 }
 
 func (f *multiFetcher) NextDoc() (immutable.Option[string], error) {
+	if f.hasPendingDoc {
+		// The caller skipped the last document (e.g. it lacks the permission to read it) without
+		// calling `GetFields`: it must not be yielded again.
+		f.children[f.currentFetcherIndex].docID = immutable.None[string]()
+		f.hasPendingDoc = false
+	}
+
 	selectedFetcherIndex := -1
 	var selectedDocID immutable.Option[string]
 
@@ -90,6 +100,7 @@ func (f *multiFetcher) NextDoc() (immutable.Option[string], error) {
 	}
 
 	f.currentFetcherIndex = selectedFetcherIndex
+	f.hasPendingDoc = selectedFetcherIndex >= 0
 	return selectedDocID, nil
 }
 
@@ -100,6 +111,7 @@ func (f *multiFetcher) GetFields() (immutable.Option[EncodedDocument], error) {
 	}
 
 	f.children[f.currentFetcherIndex].docID = immutable.None[string]()
+	f.hasPendingDoc = false
 
 	return doc, nil
 }
